@@ -17,6 +17,9 @@ pub open spec fn redo_of(d: Diff) -> Seq<Call> {
         Diff::SetFrozenColumnsCount { sheet, new_value, old_value } => redo_SetFrozenColumnsCount(&sheet, &new_value, &old_value),
         Diff::SetTimezone { old_value, new_value } => redo_SetTimezone(&old_value, &new_value),
         Diff::SetLocale { old_value, new_value } => redo_SetLocale(&old_value, &new_value),
+        Diff::SetShowGridLines { sheet, old_value, new_value } => redo_SetShowGridLines(&sheet, &old_value, &new_value),
+        Diff::SetSheetColor { index, old_value, new_value } => redo_SetSheetColor(&index, &old_value, &new_value),
+        Diff::RenameSheet { index, old_value, new_value } => redo_RenameSheet(&index, &old_value, &new_value),
         _ => arbitrary(),
     }
 }
@@ -70,9 +73,20 @@ impl<'a> Model<'a> {
 //@stub base/src/model.rs Model::evaluate
     ensures final(self).log() == old(self).log()
 //@end
+//@stub base/src/model.rs Model::set_show_grid_lines
+    ensures r.is_ok() ==> final(self).log() == old(self).log().push(Call::SetShowGridLines(sheet, show_grid_lines)), r.is_err() ==> *final(self) == *old(self)
+//@end
+//@stub base/src/model.rs Model::set_sheet_color
+    ensures r.is_ok() ==> final(self).log() == old(self).log().push(Call::SetSheetColor(sheet, *color)), r.is_err() ==> *final(self) == *old(self)
+//@end
+//@stub base/src/new_empty.rs Model::rename_sheet_by_index
+    ensures r.is_ok() ==> final(self).log() == old(self).log().push(Call::RenameSheet(sheet_index, new_name@)), r.is_err() ==> *final(self) == *old(self)
+//@end
 }
 impl Workbook {
+    pub uninterp spec fn ws(&self, i: u32) -> Worksheet;
 //@stub base/src/workbook.rs Workbook::worksheet
+    ensures r.is_ok() ==> *r.unwrap() == self.ws(worksheet_index)
 //@end
 }
 impl Worksheet {
@@ -136,6 +150,30 @@ impl<'a> UserModel<'a> {
 //@rewrite `) -> Result<(), String> {` => `) -> (r: Result<(), String>) {`
 //@end
 
+//@fn base/src/user_model/common.rs UserModel::set_show_grid_lines
+//@spec
+    ensures r.is_ok() ==> recorded(old(self), final(self), Diff::SetShowGridLines { sheet, new_value: show_grid_lines, old_value: old(self).model.workbook.ws(sheet).show_grid_lines }),
+//@rewrite `-> Result<(), String> {` => `-> (r: Result<(), String>) {`
+//@end
+//@fn base/src/user_model/common.rs UserModel::set_sheet_color
+//@spec
+    ensures r.is_ok() ==> recorded(old(self), final(self), Diff::SetSheetColor { index: sheet, new_value: *color, old_value: old(self).model.workbook.ws(sheet).color }),
+//@rewrite `-> Result<(), String> {` => `-> (r: Result<(), String>) {`
+//@end
+//@fn base/src/user_model/common.rs UserModel::rename_sheet
+//@spec
+    ensures r.is_ok() ==> same_state(old(self), final(self)) || exists|ov: String, nv: String| ov@ == old(self).model.workbook.ws(sheet).name@ && nv@ == new_name@
+                && #[trigger] recorded(old(self), final(self), Diff::RenameSheet { index: sheet, old_value: ov, new_value: nv }),
+//@rewrite `-> Result<(), String> {` => `-> (r: Result<(), String>) {`
+//@before#2 `Ok(())`
+        proof {
+            let d = self.history.undo_stack@.last()@[0];
+            match d {
+                Diff::RenameSheet { index, old_value: ov, new_value: nv } => { assert(recorded(old(self), self, Diff::RenameSheet { index: sheet, old_value: ov, new_value: nv })); }
+                _ => {}
+            }
+        }
+//@end
 //@fn base/src/user_model/common.rs UserModel::move_rows_action
 //@attr
 #[verifier::loop_isolation(false)]
